@@ -344,6 +344,7 @@ package raft
 //@ func Raft.nextConfiguration
 //@   flags lockheld
 //@   requires [next-nonnil] next != nil
+//@   requires [alive] !(r.id in next.Members) ==> r.state != Shutdown
 //@   requires [pre-nonnil] r.configuration != nil && r.followers != nil && r.operationManager != nil && r.operationManager.leaderLease != nil && r.logger != nil && r.operationManager.pendingReplicated != nil && r.operationManager.pendingReadOnly != nil
 //@   requires [pre-I11c] forall o *Operation :: o in r.operationManager.pendingReadOnly ==> o != nil
 //@   requires [pre-L] 0 <= Llast
@@ -794,6 +795,10 @@ package raft
 //@   at call r.log.Compact assume [A-IS-COMMITTED] inLog(X)
 //@   at call r.snapshotStorage.SnapshotFile assert [IS.discard-only-on-mismatch] !(inLog(X) && Lterm[X] == T)
 //@   at call r.log.DiscardEntries assert [IS.discard-args] arg0 == X && arg1 == T
+// F33 repaired: when the whole log is discarded, a configuration that was adopted from one of the
+// discarded entries (never committed) must not stay in force: the handler falls back to the
+// committed configuration before it looks at the snapshot's.
+//@   at call r.applyConfiguration assert [IS.discard-fallback] r.committedConfiguration != nil ==> r.configuration.Index <= r.committedConfiguration.Index
 //@   at before-assign r.lastApplied assert [IS.applied-monotone] newval >= r.lastApplied
 //@   at before-assign r.commitIndex assert [IS.commit-monotone] newval >= r.commitIndex
 //@   at before-assign r.lastIncludedIndex assert [IS.included-monotone] newval > r.lastIncludedIndex && newval == X
@@ -811,6 +816,14 @@ package raft
 
 // The two flags that pause application during a snapshot / mark an Apply in flight are each written
 // by one goroutine only (and read by the others under the lock).
+// Stop() publishes the Shutdown state under the lock, waits for the background loops, and then closes
+// or discards the snapshot files WITHOUT the lock. That is race-free only because every other
+// goroutine that gets the lock afterwards looks at the state first and leaves these fields alone:
+// an access to one of them is an obligation `<fn>.not-after-stop` (r.state != Shutdown is known).
+//@ stopowned Raft.snapshot follower.snapshot
+// Exempt: the lifecycle functions themselves, and the background loops that Stop() waits for
+// (sync.WaitGroup) before it touches the fields.
+//@ stopexempt Raft.Stop Raft.start Raft.Restart Raft.Start NewRaft Raft.snapshotLoop Raft.applyLoop Raft.commitLoop Raft.readOnlyLoop Raft.electionLoop Raft.heartbeatLoop Raft.electionTicker
 //@ owner Raft.snapshotting = Raft.snapshotLoop
 //@ owner Raft.applying = Raft.applyLoop
 //@ func Raft.snapshotLoop
@@ -1031,6 +1044,8 @@ package raft
 
 //@ func snapshotFile.Discard
 //@   ensures [keeps-published] old(s.file) == nil ==> err == nil
+// a discarded writer is never renamed into place (the rename is what publishes a snapshot)
+//@   ensures [never-publishes] renames == old(renames)
 
 // ===========================================================================================
 // C18: totality of the public API (no panic / abort; futures answered or tabled)
